@@ -161,6 +161,9 @@ Definition act_t_name (args : list pyval) : res pyval :=
   match args with
   | [name] => Ok (PDict [("schema", PNone); ("table_name", name); ("columns", PList []); ("checks", PList [])])
   | [schema; _; name] => Ok (PDict [("schema", schema); ("table_name", name); ("columns", PList []); ("checks", PList [])])
+  | [project; PStr "."; schema; PStr "."; name] =>
+      let d := [("schema", schema); ("table_name", name); ("columns", PList []); ("checks", PList [])] in
+      Ok (PDict (match project with PStr "" | PNone => d | _ => dict_set d "project" project end))
   | _ => Unsupported "t_name form"
   end.
 
@@ -375,12 +378,392 @@ Definition act_expr_table (prod : string) (args : list pyval) : res pyval :=
   else if String.eqb prod "expr -> expr RP" then
     match args with
     | [PDict t; PStr ")"] =>
-        if is_column_dict t || dict_has t "index_stmt" || dict_has t "check" || dict_has t "enforced" || dict_has t "references"
-           || dict_has t "constraint" || dict_has t "unique_statement"
+        (* p_list = [t, t]: the branches on p_list[-1] look at the table dict itself; a left-over "references" /
+           "unique_statement" key is harmless (add_ref_information_to_table finds no list, keys() != {unique_statement}) *)
+        if is_column_dict t || dict_has t "index_stmt" || dict_has t "check" || dict_has t "enforced" || dict_has t "constraint"
         then Unsupported "expr RP: table dict with special keys" else Ok (PDict t)
     | _ => Unsupported "expr form"
     end
   else Unsupported "expr production".
+
+
+(* ======================================================================================================================
+   Further semantic actions (ALTER TABLE, CREATE INDEX, table-level constraints, CREATE TABLE variants ...).
+   They widen what the model can run (correspondence layers D and F on the harvested test DDL); the fragment theorems
+   do not depend on them: [action] only falls through to [action_more] for productions it does not know. *)
+Definition strs_of (l : list pyval) : list string := flat_map (fun v => match v with PStr s => [s] | _ => [] end) l.
+Definition nth_str (l : list pyval) (n : nat) : res string :=
+  match nth_error l n with Some (PStr s) => Ok s | _ => Unsupported "expected a string argument" end.
+
+(* p_create_table : all nine alternatives; args = p[1..] *)
+Definition act_create_table_g (args : list pyval) : res pyval :=
+  let ss := strs_of args in
+  let n := List.length args in                       (* len(p_list) = n + 1 *)
+  let d0 : adict := if mem "EXISTS" ss then [("if_not_exists", PBool true)] else [] in
+  let d1 := if mem "REPLACE" ss then dict_set d0 "replace" (PBool true) else d0 in
+  do id_key <- (if mem "REPLACE" ss then nth_str args 3 else if Nat.eqb n 4 then nth_str args 2 else nth_str args 1);
+  let k := upper id_key in
+  if String.eqb k "EXTERNAL" || String.eqb k "TRANSIENT" then Ok (PDict (dict_set d1 (lower k) (PBool true)))
+  else if String.eqb k "GLOBAL" then Ok (PDict (dict_set d1 "is_global" (PBool true)))
+  else if String.eqb k "TEMP" || String.eqb k "TEMPORARY" then
+    let d2 := dict_set d1 "temp" (PBool true) in
+    do g <- (if Nat.eqb n 4 then do w <- nth_str args 1; Ok (String.eqb (upper w) "GLOBAL") else Ok false);
+    Ok (PDict (if g then dict_set d2 "is_global" (PBool true) else d2))
+  else Ok (PDict d1).
+
+(* p_t_name : id DOT id DOT id *)
+Definition act_t_name3 (args : list pyval) : res pyval :=
+  match args with
+  | [project; PStr "."; schema; PStr "."; name] =>
+      let d := [("schema", schema); ("table_name", name); ("columns", PList []); ("checks", PList [])] in
+      Ok (PDict (if truthy_a project then dict_set d "project" project else d))
+  | _ => Unsupported "t_name form"
+  end.
+
+(* p_alt_table_name *)
+Definition act_alt_table (args : list pyval) : res pyval :=
+  match last_val args with
+  | PDict td =>
+      match dict_get td "table_name", dict_get td "schema" with
+      | Some tn, Some sch =>
+          let d0 : adict := [("alter_table_name", tn); ("schema", sch)] in
+          let d1 := if list_has_str args "IF" then dict_set d0 "if_exists" (PBool true) else d0 in
+          let d2 := if Nat.eqb (List.length args) 5 then dict_set d1 "only" (PBool true) else d1 in
+          Ok (PDict (if tr td "project" then dict_set d2 "project" (match dict_get td "project" with Some v => v | None => PNone end) else d2))
+      | _, _ => Raise KeyError
+      end
+  | _ => Unsupported "alt_table form"
+  end.
+
+Definition act_constraint (args : list pyval) : res pyval :=
+  match args with
+  | [_; name] => Ok (PDict [("constraint", PDict [("name", name)])])
+  | _ => Unsupported "constraint form"
+  end.
+
+(* p_pid : pid COMMA id *)
+Definition act_pid_more (args : list pyval) : res pyval :=
+  match args with
+  | [PList l; PStr ","; PStr s] => Ok (PList (l ++ [PStr s]))
+  | _ => Unsupported "pid form"
+  end.
+
+Definition constraint_name_of (v : pyval) : option pyval :=
+  match v with
+  | PDict d => match dict_get d "constraint" with
+               | Some (PDict c) => Some (match dict_get c "name" with Some n => n | None => PNone end)
+               | _ => None end
+  | _ => None
+  end.
+
+(* p_alter_primary_key / p_alter_unique *)
+Definition act_alter_key (key : string) (args : list pyval) : res pyval :=
+  match args, last_val (remove_par args) with
+  | PDict a :: _ :: third :: _, pid =>
+      let cn := match third with PDict _ => (match constraint_name_of third with Some n => n | None => PNone end) | _ => PNone end in
+      (* "constraint" in p[3] on a string is a substring test: the keywords PRIMARY / UNIQUE do not contain it *)
+      Ok (PDict (dict_set a key (PDict [("constraint_name", cn); ("columns", pid)])))
+  | _, _ => Unsupported "alter key form"
+  end.
+
+(* p_alter_foreign *)
+Definition act_alter_foreign (args : list pyval) : res pyval :=
+  match args with
+  | [PDict a; _; PList cols] =>
+      Ok (PDict (dict_set a "columns" (PList (map (fun c => PDict [("name", c)]) cols))))
+  | [PDict a; _; PDict cns; PList cols] =>
+      (match constraint_name_of (PDict cns) with
+       | Some n => Ok (PDict (dict_set a "columns" (PList (map (fun c => PDict [("name", c); ("constraint_name", n)]) cols))))
+       | None => Ok (PDict (dict_set a "columns" (PList (map (fun c => PDict [("name", c)]) cols))))
+       end)
+  | _ => Unsupported "alter_foreign form"
+  end.
+
+(* p_expression_alter *)
+Definition act_expr_alter (args : list pyval) : res pyval :=
+  match args with
+  | [PDict a] => Ok (PDict a)
+  | [PDict a; PDict b] => Ok (PDict (dict_update a b))
+  | _ => Unsupported "expr alter form"
+  end.
+
+(* p_create_index *)
+Definition act_create_index (args : list pyval) : res pyval :=
+  match args with
+  | PDict d :: _ => Ok (PDict d)
+  | _ =>
+      Ok (PDict [("schema", PNone); ("index_name", last_val args); ("unique", PBool (list_has_str args "UNIQUE"));
+                 ("clustered", PBool (list_has_str args "CLUSTERED"))])
+  end.
+Definition act_index_table_name (args : list pyval) : res pyval :=
+  match args with
+  | [PDict d; _; tn] => Ok (PDict (dict_update d [("schema", PNone); ("table_name", tn)]))
+  | [PDict d; _; sch; PStr "."; tn] => Ok (PDict (dict_update d [("schema", sch); ("table_name", tn)]))
+  | _ => Unsupported "index_table_name form"
+  end.
+Definition act_index_pid (args : list pyval) : res pyval :=
+  match args with
+  | [PStr c] => Ok (PDict [("detailed_columns", PList [PDict [("name", PStr c); ("order", PStr "ASC"); ("nulls", PStr "LAST")]]);
+                           ("columns", PList [PStr c])])
+  | [PDict d; PStr w] =>
+      (match dict_get d "detailed_columns" with
+       | Some (PList (PDict first :: rest)) =>
+           let first' := if String.eqb (upper w) "DESC" || String.eqb (upper w) "ASC" then dict_set first "order" (PStr (upper w))
+                         else dict_set first "nulls" (PStr w) in
+           Ok (PDict (dict_set d "detailed_columns" (PList (PDict first' :: rest))))
+       | _ => Raise KeyError
+       end)
+  | [PDict d; PStr ","; PDict e] =>
+      (match dict_get d "columns", dict_get d "detailed_columns", dict_get e "columns", dict_get e "detailed_columns" with
+       | Some (PList c1), Some (PList dc1), Some (PList c2), Some (PList dc2) =>
+           Ok (PDict (dict_set (dict_set d "columns" (PList (c1 ++ c2))) "detailed_columns" (PList (dc1 ++ dc2))))
+       | _, _, _, _ => Raise KeyError
+       end)
+  | _ => Unsupported "index_pid form"
+  end.
+Definition act_expr_index (args : list pyval) : res pyval :=
+  match args with
+  | [PDict d; PStr "("; PDict e; PStr ")"] =>
+      (match dict_get e "detailed_columns", dict_get e "columns" with
+       | Some (PList dc), Some (PList c) =>
+           let ext (t : adict) (k : string) (l : list pyval) : res adict :=
+               match dict_get t k with
+               | None => Ok (dict_set t k (PList l))
+               | Some (PList old) => Ok (dict_set t k (PList (old ++ l)))
+               | Some _ => Raise AttributeError
+               end in
+           do t1 <- ext d "detailed_columns" dc; do t2 <- ext t1 "columns" c; Ok (PDict t2)
+       | _, _ => Raise KeyError
+       end)
+  | _ => Unsupported "expr index form"
+  end.
+
+(* table-level PRIMARY KEY (..) / UNIQUE (..) / FOREIGN KEY (..) *)
+Definition is_sort_word (v : pyval) : bool := pystr_eq v "ASC" || pystr_eq v "DESC".
+Definition act_pkey (args : list pyval) : res pyval :=
+  match args with
+  | [PDict _; PStr "("; PList l; PStr ")"] => Ok (PDict [("primary_key", PList (filter (fun v => negb (is_sort_word v)) l))])
+  | _ => Unsupported "pkey form"
+  end.
+Definition act_uniq (args : list pyval) : res pyval :=
+  match args with
+  | [PStr "UNIQUE"; PStr "("; PList l; PStr ")"] => Ok (PDict [("unique_statement", PDict [("columns", PList l)])])
+  | _ => Unsupported "uniq form"
+  end.
+Definition act_foreign (args : list pyval) : res pyval :=
+  match args with
+  | [PStr "FOREIGN"; PStr "KEY"; PStr "("; PList l; PStr ")"] => Ok (PList l)
+  | _ => Unsupported "foreign form"
+  end.
+
+(* BaseSQL.set_constraint *)
+Definition set_constraint (t : adict) (ty : string) (c : adict) (name : pyval) : res adict :=
+  let cns := if tr t "constraints" then (match dict_get t "constraints" with Some (PDict d) => Some d | _ => None end) else Some [] in
+  match cns with
+  | None => Raise TypeError
+  | Some cd =>
+      let old := if tr cd ty then (match dict_get cd ty with Some (PList l) => Some l | _ => None end) else Some [] in
+      match old with
+      | None => Raise AttributeError
+      | Some l =>
+          let c' := dict_update c [("constraint_name", name)] in
+          Ok (dict_set t "constraints" (PDict (dict_set cd ty (PList (l ++ [PDict c'])))))
+      end
+  end.
+
+Definition join_names (sep : string) (l : list pyval) : res string :=
+  fold_left (fun acc v => do a <- acc; match v with PStr s => Ok (if String.eqb a "" then s else a ++ sep ++ s) | _ => Raise TypeError end) l (Ok "").
+
+(* p_expression_table for  expr COMMA pkey | uniq | constraint uniq | constraint pkey | foreign ref | constraint foreign ref *)
+Definition act_expr_table_item (args : list pyval) : res pyval :=
+  match args with
+  | [PDict t; PStr ","; PDict item] =>
+      if dict_has item "primary_key" && negb (dict_has item "unique_statement") && Nat.eqb (List.length item) 1 then
+        Ok (PDict (dict_update t item))                                                        (* expr COMMA pkey *)
+      else if dict_has item "unique_statement" && Nat.eqb (List.length item) 1 then
+        (* expr COMMA uniq *)
+        match dict_get item "unique_statement" with
+        | Some (PDict us) =>
+            let t1 := dict_update t item in
+            (match dict_get us "columns" with
+             | Some (PList cols) =>
+                 if (1 <? List.length cols)%nat then
+                   do nm <- (match dict_get us "name" with Some n => Ok n | None => do j <- join_names "_" cols; Ok (PStr ("UC_" ++ j)) end);
+                   do t2 <- set_constraint t1 "uniques" [("columns", PList cols)] nm; Ok (PDict t2)
+                 else
+                   (match cols, dict_get t1 "columns" with
+                    | [c], Some (PList tcols) =>
+                        Ok (PDict (dict_set t1 "columns"
+                                            (PList (map (fun col => match col with
+                                                                    | PDict cd => if (match dict_get cd "name" with Some n => (match n, c with PStr x, PStr y => String.eqb x y | _, _ => false end) | None => false end)
+                                                                                  then PDict (dict_set cd "unique" (PBool true)) else col
+                                                                    | _ => col end) tcols))))
+                    | _, _ => Unsupported "uniq on a table without columns"
+                    end)
+             | _ => Unsupported "uniq columns form"
+             end)
+        | _ => Unsupported "uniq form"
+        end
+      else Unsupported "expr COMMA item"
+  | [PDict t; PStr ","; PDict cns; PDict item] =>
+      match constraint_name_of (PDict cns) with
+      | None => Unsupported "expr COMMA x item"
+      | Some name =>
+        if dict_has item "unique_statement" && Nat.eqb (List.length item) 1 then
+          match dict_get item "unique_statement" with
+          | Some (PDict us) =>
+              (match dict_get us "columns" with
+               | Some cols => do t2 <- set_constraint (dict_update t item) "uniques" [("columns", cols)] name; Ok (PDict t2)
+               | None => Raise KeyError end)
+          | _ => Unsupported "constraint uniq form"
+          end
+        else if dict_has item "primary_key" && Nat.eqb (List.length item) 1 then
+          match dict_get item "primary_key" with
+          | Some cols => do t2 <- set_constraint (dict_update t item) "primary_keys" [("columns", cols)] name; Ok (PDict t2)
+          | None => Raise KeyError
+          end
+        else Unsupported "expr COMMA constraint item"
+      end
+  | [PDict t; PStr ","; PList cols; PDict refd] =>
+      (* expr COMMA foreign ref *)
+      if list_has_str cols "constraint" then Unsupported "a foreign key column named constraint"
+      else
+      match dict_get refd "references" with
+      | Some (PDict r) =>
+          let t1 := dict_update t refd in
+          let old := match dict_get t1 "ref_columns" with Some (PList l) => l | _ => [] end in
+          (match dict_get r "columns" with
+           | Some (PList rcols) =>
+               do news <- (fix go (cs : list pyval) (i : nat) : res (list pyval) :=
+                             match cs with
+                             | [] => Ok []
+                             | c :: rest =>
+                                 match nth_error rcols i with
+                                 | None => Raise IndexError
+                                 | Some rc => do t <- go rest (S i);
+                                              Ok (PDict (dict_set (adel (dict_set r "column" rc) "columns") "name" c) :: t)
+                                 end
+                             end) cols 0%nat;
+               Ok (PDict (dict_set t1 "ref_columns" (PList (old ++ news))))
+           | _ => Raise KeyError
+           end)
+      | _ => Unsupported "foreign ref form"
+      end
+  | [PDict t; PStr ","; PDict cns; PList cols; PDict refd] =>
+      (* expr COMMA constraint foreign ref : the reference dict is shared between table["references"] and the constraint entry *)
+      match constraint_name_of (PDict cns), dict_get refd "references" with
+      | Some name, Some (PDict r) =>
+          if list_has_str cols "constraint" then Unsupported "a foreign key column named constraint"
+          else
+          let nm := match cols with [c] => c | _ => PList cols end in
+          let r' := dict_update (dict_set r "name" nm) [("constraint_name", name)] in
+          let t1 := dict_update t [("references", PDict r')] in
+          let cons0 := if tr t1 "constraints" then (match dict_get t1 "constraints" with Some (PDict d) => Some d | _ => None end) else Some [] in
+          (match cons0 with
+           | None => Raise TypeError
+           | Some cd =>
+               let old := if tr cd "references" then (match dict_get cd "references" with Some (PList l) => Some l | _ => None end) else Some [] in
+               match old with
+               | None => Raise AttributeError
+               | Some l => Ok (PDict (dict_set t1 "constraints" (PDict (dict_set cd "references" (PList (l ++ [PDict r']))))))
+               end
+           end)
+      | _, _ => Unsupported "constraint foreign ref form"
+      end
+  | [PDict t; PStr ","] => Ok (PDict t)
+  | _ => Unsupported "expr COMMA form"
+  end.
+
+(* p_alter_default *)
+Definition act_alter_default (args : list pyval) : res pyval :=
+  match args with
+  | PDict a :: rest =>
+      let p_list := remove_par args in                        (* python p_list[1..] (p_list[0] = p[0] = p[1]) *)
+      let lastv := last_val p_list in
+      let is_for := match nth_error p_list 1 with Some (PStr w) => String.eqb (upper w) "FOR" | _ => false end in
+      let oldd := match dict_get a "default" with Some (PDict d) => Some d | _ => None end in
+      do cv <- (if is_for then Ok (lastv, PNone)
+                else match oldd with
+                     | Some d => if tr d "value"
+                                 then (match dict_get d "value", lastv with
+                                       | Some (PStr v), PStr w => Ok (PNone, PStr (v ++ " " ++ w))
+                                       | _, _ => Raise TypeError end)
+                                 else Ok (PNone, lastv)
+                     | None => if tr a "default" then Raise AttributeError else Ok (PNone, lastv)
+                     end);
+      let '(column, value) := cv in
+      do a1 <- (if negb (dict_has a "default")
+                then Ok (dict_set a "default" (PDict [("constraint_name", PNone); ("columns", column); ("value", value)]))
+                else match oldd with
+                     | Some d =>
+                         let c := if tr d "column" then (match dict_get d "column" with Some v => v | None => PNone end) else column in
+                         let v := if truthy_a value then value else (match dict_get d "value" with Some x => x | None => PNone end) in
+                         Ok (dict_set a "default" (PDict (dict_update d [("columns", c); ("value", v)])))
+                     | None => Raise AttributeError
+                     end);
+      (* if "constraint" in p[3] *)
+      match nth_error args 2 with
+      | None => Raise IndexError
+      | Some (PDict c3) =>
+          if dict_has c3 "constraint" then
+            match constraint_name_of (PDict c3), dict_get a1 "default" with
+            | Some n, Some (PDict d) => Ok (PDict (dict_set a1 "default" (PDict (dict_set d "constraint_name" n))))
+            | _, _ => Raise TypeError
+            end
+          else Ok (PDict a1)
+      | Some (PStr w) => if contains w "constraint" then Raise TypeError else Ok (PDict a1)
+      | Some (PList l) => if list_has_str l "constraint" then Raise TypeError else Ok (PDict a1)
+      | Some _ => Raise TypeError
+      end
+  | _ => Unsupported "alter_default form"
+  end.
+
+Definition action_more (norm : bool) (prod : string) (args : list pyval) : res pyval :=
+  match words prod with
+  | lhs :: _ :: _ =>
+    if String.eqb lhs "create_table" then act_create_table_g args
+    else if String.eqb prod "t_name -> id DOT id DOT id" then act_t_name3 args
+    else if String.eqb lhs "alt_table" then act_alt_table args
+    else if String.eqb prod "constraint -> CONSTRAINT id" then act_constraint args
+    else if String.eqb prod "pid -> pid COMMA id" then act_pid_more args
+    else if String.eqb prod "alter_drop_column -> alt_table DROP COLUMN id" then
+      match args with [PDict a; _; _; c] => Ok (PDict (dict_set a "columns_to_drop" (PList [c]))) | _ => Unsupported "alter_drop_column form" end
+    else if String.eqb prod "alter_rename_column -> alt_table RENAME COLUMN id id id" then
+      match args with
+      | [PDict a; _; _; x; _; z] => Ok (PDict (dict_set a "columns_to_rename" (PList [PDict [("from", x); ("to", z)]])))
+      | _ => Unsupported "alter_rename_column form" end
+    else if String.eqb prod "alter_column_add -> alt_table ADD defcolumn" then
+      match args with [PDict a; _; c] => Ok (PDict (dict_set a "columns" (PList [c]))) | _ => Unsupported "alter_column_add form" end
+    else if String.eqb prod "alter_column_modify -> alt_table MODIFY COLUMN defcolumn" then
+      match args with [PDict a; _; _; c] => Ok (PDict (dict_set a "columns_to_modify" (PList [c]))) | _ => Unsupported "alter_column_modify form" end
+    else if String.eqb prod "alter_column_sql_server -> alt_table ALTER COLUMN defcolumn" then
+      match args with [PDict a; _; _; c] => Ok (PDict (dict_set a "columns_to_modify" (PList [c]))) | _ => Unsupported "alter_column_sql_server form" end
+    else if String.eqb prod "alter_column_modify_oracle -> alt_table MODIFY defcolumn" then
+      match args with [PDict a; _; c] => Ok (PDict (dict_set a "columns_to_modify" (PList [c]))) | _ => Unsupported "alter_column_modify_oracle form" end
+    else if String.eqb lhs "alter_default" then act_alter_default args
+    else if String.eqb lhs "alter_primary_key" then act_alter_key "primary_key" args
+    else if String.eqb lhs "alter_unique" then act_alter_key "unique" args
+    else if String.eqb lhs "alter_foreign" then act_alter_foreign args
+    else if String.eqb prod "expr -> alter_foreign ref" || String.eqb prod "expr -> alter_drop_column" || String.eqb prod "expr -> alter_unique"
+            || String.eqb prod "expr -> alter_primary_key" || String.eqb prod "expr -> alter_column_add"
+            || String.eqb prod "expr -> alter_rename_column" || String.eqb prod "expr -> alter_column_modify"
+            || String.eqb prod "expr -> alter_column_sql_server" || String.eqb prod "expr -> alter_column_modify_oracle"
+            || String.eqb prod "expr -> alter_default" then act_expr_alter args
+    else if String.eqb lhs "create_index" then act_create_index args
+    else if String.eqb lhs "index_table_name" then act_index_table_name args
+    else if String.eqb lhs "index_pid" then act_index_pid args
+    else if String.eqb prod "expr -> index_table_name LP index_pid RP" then act_expr_index args
+    else if String.eqb prod "pkey_statement -> PRIMARY KEY" then Ok (PDict [("primary_key", PNone)])
+    else if String.eqb prod "pkey -> pkey_statement LP pid RP" then act_pkey args
+    else if String.eqb prod "uniq -> UNIQUE LP pid RP" then act_uniq args
+    else if String.eqb prod "foreign -> FOREIGN KEY LP pid RP" then act_foreign args
+    else if String.eqb prod "expr -> expr COMMA pkey" || String.eqb prod "expr -> expr COMMA uniq"
+            || String.eqb prod "expr -> expr COMMA constraint uniq" || String.eqb prod "expr -> expr COMMA constraint pkey"
+            || String.eqb prod "expr -> expr COMMA foreign ref" || String.eqb prod "expr -> expr COMMA constraint foreign ref"
+            || String.eqb prod "expr -> expr COMMA" then act_expr_table_item args
+    else Unsupported ("action " ++ prod)
+  | _ => Unsupported ("action " ++ prod)
+  end.
 
 Definition action (norm : bool) (prod : string) (args : list pyval) : res pyval :=
   match words prod with
@@ -427,7 +810,7 @@ Definition action (norm : bool) (prod : string) (args : list pyval) : res pyval 
     else if String.eqb prod "c_schema -> CREATE SCHEMA" then Ok PNone
     else if String.eqb prod "create_schema -> c_schema id" || String.eqb prod "create_schema -> c_schema IF NOT EXISTS id"
          then act_create_schema args
-    else Unsupported ("action " ++ prod)
+    else action_more norm prod args
   | _ => Unsupported ("action " ++ prod)
   end.
 
